@@ -137,6 +137,8 @@ func (e *Engine) resetPath(prefix []Decision) {
 	e.inPool = map[*Value]bool{}
 	e.byteBacking = nil
 	e.clock = 0
+	e.copyCells = nil
+	e.initRan = map[*ssa.Package]bool{}
 	e.panicking = nil
 	e.poolModel = 0
 	e.enumForksPath = 0
@@ -201,7 +203,7 @@ func (e *Engine) runPath(entry *ssa.Function, prefix []Decision) (end pathEnd) {
 func newEngine(prog *ssa.Program, pkg *ssa.Package, cfg *Config) *Engine {
 	return &Engine{prog: prog, pkg: pkg, solver: NewSolver(cfg.Solver), fuel: cfg.Fuel, unwind: cfg.Unwind, mergeOn: cfg.Merge,
 		covered: map[string]int{}, funcsSeen: map[string]int{}, stdSeen: map[string]int{}, modelsSeen: map[string]int{}, found: map[string]*Violation{},
-		accesses: map[string]map[access]int{}, sizes: types.SizesFor("gc", "amd64"), params: cfg.Params,
+		accesses: map[string]map[access]int{}, initStoreCache: map[*ssa.Package]map[*ssa.Global]bool{}, sizes: types.SizesFor("gc", "amd64"), params: cfg.Params,
 		panicsReport: cfg.Panics == "report", maxDepth: cfg.Depth}
 }
 
